@@ -87,6 +87,11 @@ CHECKS = {
    "Timed and untimed single operations and searches with scripted arrival instants before/after/never relative to the deadline; timeouts must fire at start+T (per next() call for searches), other and later operations complete with their own tokens, late replies reach nobody, timed-out ids are released and handed out again.",
    "Trusted base: tokio paused clock (time advances only at global idleness), SIM, hooks. No ties (|arrival-deadline| >= 2 ms).",
    "DESIGN.md §3 C12", "harness"),
+ "C11": ("exploration",
+   "property-based testing (proptest) with a single-field mutation catalogue over valid messages + random bytes against the frame decoder (catch_unwind, progress rule) and against the live driver on the simulated connection; child-process stack lane for nesting depth; libFuzzer lane in thorough",
+   "Decoder: never a panic, no 'need more' once the outer frame is complete, exact consumption, definite non-envelopes never delivered. Driver: with 1-3 operations pending, hostile bytes never panic or wedge the driver (virtual watchdog) and definite non-envelopes end the connection with an error every pending operation observes. Stack: up to ~250 000 nested elements in 1 MiB decoded on a 2 MiB stack in a child process.",
+   "Trusted base: harness BER reader (classification of 'definitely not an envelope'), SIM. A panic in the caller's task on a well-enveloped ill-formed result is outside the statement and only labelled.",
+   "DESIGN.md §3 C11, Appendix D", "harness"),
 }
 
 NOT_YET = {}
